@@ -1,1 +1,207 @@
-// harnesses for vu_frontend_req_handler
+// Child module of vhost::vhost_user::frontend_req_handler (the frontend's server for backend-initiated
+// requests).  C18 (server half), C06 (server fed arbitrary bodies/descriptors), C09, C01 (ack encoding).
+use super::*;
+use crate::vhost_user::verif::ghost as g;
+use crate::vhost_user::verif::spec;
+use crate::vhost_user::verif::spec::be;
+use std::mem::ManuallyDrop;
+use std::os::unix::io::FromRawFd;
+
+pub(crate) struct FRec;
+pub(crate) struct FRecData {
+    pub calls: u32,
+    pub op: u32,
+    pub a: [u64; 5],
+    pub fd: RawFd,
+    // script: 0 => Ok(ret), 1 => Err(errno), 2 => Err(without errno)
+    pub mode: u8,
+    pub ret: u64,
+    pub errno: i32,
+    pub marker: u64,
+}
+pub(crate) static mut FR: FRecData = FRecData { calls: 0, op: 0, a: [0; 5], fd: -1, mode: 0, ret: 0, errno: 0, marker: 0x0f0e_0d0c_0b0a_0908 };
+#[allow(static_mut_refs)]
+fn fr() -> &'static mut FRecData {
+    // SAFETY: single-threaded harness
+    unsafe { &mut FR }
+}
+impl FRec {
+    fn out(&mut self, op: u32) -> HandlerResult<u64> {
+        fr().calls += 1;
+        fr().op = op;
+        match fr().mode {
+            0 => Ok(fr().ret),
+            1 => Err(std::io::Error::from_raw_os_error(fr().errno)),
+            _ => Err(std::io::Error::from(std::io::ErrorKind::Other)),
+        }
+    }
+    fn uuid(&mut self, u: &VhostUserSharedMsg) {
+        let b = u.uuid.as_bytes();
+        fr().a[0] = spec::rd64(b, 0);
+        fr().a[1] = spec::rd64(b, 8);
+    }
+    fn mmap(&mut self, m: &VhostUserMMap) {
+        let (a, b, c, d) = (m.fd_offset, m.shm_offset, m.len, m.flags);
+        fr().a = [m.shmid as u64, a, b, c, d];
+    }
+}
+impl VhostUserFrontendReqHandlerMut for FRec {
+    fn handle_config_change(&mut self) -> HandlerResult<u64> { self.out(be::CONFIG_CHANGE_MSG) }
+    fn shared_object_add(&mut self, uuid: &VhostUserSharedMsg) -> HandlerResult<u64> { self.uuid(uuid); self.out(be::SHARED_OBJECT_ADD) }
+    fn shared_object_remove(&mut self, uuid: &VhostUserSharedMsg) -> HandlerResult<u64> { self.uuid(uuid); self.out(be::SHARED_OBJECT_REMOVE) }
+    fn shared_object_lookup(&mut self, uuid: &VhostUserSharedMsg, fd: &dyn AsRawFd) -> HandlerResult<u64> { self.uuid(uuid); fr().fd = fd.as_raw_fd(); self.out(be::SHARED_OBJECT_LOOKUP) }
+    fn shmem_map(&mut self, req: &VhostUserMMap, fd: &dyn AsRawFd) -> HandlerResult<u64> { self.mmap(req); fr().fd = fd.as_raw_fd(); self.out(be::SHMEM_MAP) }
+    fn shmem_unmap(&mut self, req: &VhostUserMMap) -> HandlerResult<u64> { self.mmap(req); self.out(be::SHMEM_UNMAP) }
+}
+
+fn e_freq(code: u32, flags: u32, size_delta: i32) {
+    let reply_ack: bool = kani::any();
+    let mut h = ManuallyDrop::new(FrontendReqHandler {
+        // SAFETY: descriptors 5/6 are never used for real I/O
+        sub_sock: Endpoint::<VhostUserMsgHeader<BackendReq>>::from_stream(unsafe { UnixStream::from_raw_fd(5) }),
+        tx_sock: unsafe { UnixStream::from_raw_fd(6) },
+        reply_ack_negotiated: reply_ack,
+        backend: Arc::new(Mutex::new(FRec)),
+        error: None,
+    });
+    let body: [u8; 40] = kani::any();
+    let nfds: usize = kani::any();
+    kani::assume(nfds <= 2);
+    let natural: usize = match code {
+        be::SHARED_OBJECT_ADD | be::SHARED_OBJECT_REMOVE | be::SHARED_OBJECT_LOOKUP => 16,
+        be::SHMEM_MAP | be::SHMEM_UNMAP => 40,
+        _ => 0,
+    };
+    let size = (natural as i32 + size_delta) as usize;
+    fr().mode = kani::any();
+    kani::assume(fr().mode <= 2);
+    fr().ret = kani::any();
+    fr().errno = kani::any();
+    kani::assume(fr().errno >= 1 && fr().errno <= 4095);
+    let (mode, ret, errno) = (fr().mode, fr().ret, fr().errno);
+    // SAFETY: ghost state
+    unsafe {
+        g::put_hdr(0, code, flags, size as u32);
+        g::put64(12, spec::rd64(&body, 0));
+        g::put64(20, spec::rd64(&body, 8));
+        g::put64(28, spec::rd64(&body, 16));
+        g::put64(36, spec::rd64(&body, 24));
+        g::put64(44, spec::rd64(&body, 32));
+        g::G.rx_len = 12 + size;
+        g::G.rx_closed = false;
+        g::G.rx_nfds = nfds;
+        g::G.rx_fd_call = 1;
+    }
+    let res = h.handle_request();
+    let ok = res.is_ok();
+    let okval = if let Ok(v) = &res { *v } else { 0 };
+    std::mem::forget(res);
+
+    let served = matches!(code, be::CONFIG_CHANGE_MSG | be::SHARED_OBJECT_ADD | be::SHARED_OBJECT_REMOVE | be::SHARED_OBJECT_LOOKUP | be::SHMEM_MAP | be::SHMEM_UNMAP);
+    let need_reply = flags & spec::F_NEED_REPLY != 0;
+    let hdr_ok = flags & spec::F_REPLY == 0 && flags & 3 == 1 && size_delta == 0;
+    let body_ok = match code {
+        be::SHARED_OBJECT_ADD | be::SHARED_OBJECT_REMOVE | be::SHARED_OBJECT_LOOKUP => spec::valid_shared(&body),
+        be::SHMEM_MAP | be::SHMEM_UNMAP => spec::valid_mmap(&body),
+        _ => true,
+    };
+    let want_fds = if matches!(code, be::SHARED_OBJECT_LOOKUP | be::SHMEM_MAP) { 1 } else { 0 };
+    let wellformed = served && hdr_ok && body_ok && nfds == want_fds;
+    let r = fr();
+    kani::cover!(if served && hdr_ok { r.calls == 1 && ok } else { !ok && r.calls == 0 }, "witness: request reaches the application handler / is rejected");
+    // C06/C18: handler invoked exactly for well-formed requests carrying exactly the prescribed descriptors
+    assert!(r.calls == wellformed as u32, "C06/C18: application handler invoked exactly once for well-formed requests only");
+    if r.calls == 1 {
+        assert!(r.op == code, "C18: wrong handler operation");
+        match code {
+            be::SHARED_OBJECT_ADD | be::SHARED_OBJECT_REMOVE | be::SHARED_OBJECT_LOOKUP => {
+                assert!(r.a[0] == spec::rd64(&body, 0) && r.a[1] == spec::rd64(&body, 8), "C18: uuid reaches the handler unchanged")
+            }
+            be::SHMEM_MAP | be::SHMEM_UNMAP => {
+                assert!(r.a[0] == body[0] as u64 && r.a[1] == spec::rd64(&body, 8) && r.a[2] == spec::rd64(&body, 16)
+                    && r.a[3] == spec::rd64(&body, 24) && r.a[4] == spec::rd64(&body, 32), "C18: mapping descriptor reaches the handler unchanged")
+            }
+            _ => {}
+        }
+        if want_fds == 1 {
+            assert!(r.fd == g::FD_BASE, "C18: the handler is lent the received descriptor");
+        }
+    }
+    // SAFETY: ghost state
+    unsafe {
+        assert!(!g::G.blocked, "C04-like: never read beyond the declared size");
+        if wellformed {
+            assert!(g::G.rx_pos == 12 + size);
+        }
+        // acknowledgement
+        let exp_val: u64 = match mode {
+            0 => ret,
+            1 => (-(errno as i64)) as u64,
+            _ => (-(22i64)) as u64, // -EINVAL
+        };
+        if r.calls == 1 {
+            if reply_ack && need_reply {
+                assert!(g::G.tx_calls == 1 && g::G.tx_len == 20, "C18: exactly one acknowledgement");
+                assert!(g::tx32(0) == code && g::tx32(4) == (spec::F_VERSION_1 | spec::F_REPLY) && g::tx32(8) == 8, "C01: ack header");
+                assert!(g::tx64(12) == exp_val, "C18: ack carries the handler's value, resp. the negated errno");
+                assert!(g::G.tx_first_nfds == 0);
+            } else {
+                assert!(g::G.tx_len == 0, "C18: without REPLY_ACK (or NEED_REPLY) nothing is written");
+            }
+            assert!(ok == (mode == 0) && (!ok || okval == ret), "C18: handler result is returned to the serving loop");
+        } else {
+            assert!(!ok, "C06: malformed request must be reported as an error");
+            // property is silent on whether a malformed request is nack-ed; never a zero ack, at most one
+            assert!(g::G.tx_len == 0 || (g::G.tx_calls == 1 && g::G.tx_len == 20 && g::tx64(12) != 0 && reply_ack && need_reply));
+        }
+        // C09: descriptors are lent for the call and closed afterwards, exactly once
+        assert!(!g::G.double_close, "C09: double close");
+        let mut k = 0;
+        while k < 2 {
+            if g::G.fd_state[k] != g::FD_FREE {
+                assert!(g::G.fd_state[k] == g::FD_CLOSED, "C09: descriptor of a backend request neither closed after the call");
+            }
+            k += 1;
+        }
+    }
+}
+
+macro_rules! e_fr {
+    ($name:ident, $code:expr, $flags:expr, $delta:expr) => {
+        #[kani::proof]
+        #[kani::unwind(5)]
+        #[kani::stub(vmm_sys_util::sock_ctrl_msg::raw_recvmsg, g::ghost_recvmsg)]
+        #[kani::stub(vmm_sys_util::sock_ctrl_msg::raw_sendmsg, g::ghost_sendmsg)]
+        #[kani::stub(libc::close, g::ghost_close)]
+        #[kani::stub(<std::os::fd::OwnedFd as std::ops::Drop>::drop, g::ghost_ownedfd_drop)]
+        #[kani::stub(std::alloc::handle_alloc_error, g::ghost_alloc_error)]
+        fn $name() {
+            e_freq($code, $flags, $delta)
+        }
+    };
+}
+
+// @harness props=C18,C06,C09,C01 tier=quick reach=off timeout=500 bound="FrontendReqHandler: SHARED_OBJECT_ADD flags 0x9; uuid bytes, 0..=2 descriptors, reply-ack flag, handler outcome (value / errno 1..=4095 / error without errno) symbolic" stubs="raw_recvmsg/raw_sendmsg, close, OwnedFd::drop, handle_alloc_error"
+e_fr!(e_fr_shared_object_add_nr, 6, 0x9, 0);
+// @harness props=C18,C06,C09 tier=thorough reach=off timeout=500 bound="FrontendReqHandler: SHARED_OBJECT_REMOVE flags 0x9" stubs="raw_recvmsg/raw_sendmsg, close, OwnedFd::drop, handle_alloc_error"
+e_fr!(e_fr_shared_object_remove_nr, 7, 0x9, 0);
+// @harness props=C18,C06,C09,C01 tier=quick reach=off timeout=500 bound="FrontendReqHandler: SHARED_OBJECT_LOOKUP flags 0x9 (one descriptor prescribed)" stubs="raw_recvmsg/raw_sendmsg, close, OwnedFd::drop, handle_alloc_error"
+e_fr!(e_fr_shared_object_lookup_nr, 8, 0x9, 0);
+// @harness props=C18,C06,C09,C01 tier=quick reach=off timeout=500 bound="FrontendReqHandler: SHMEM_MAP flags 0x9 (one descriptor prescribed), all 40 body bytes" stubs="raw_recvmsg/raw_sendmsg, close, OwnedFd::drop, handle_alloc_error"
+e_fr!(e_fr_shmem_map_nr, 9, 0x9, 0);
+// @harness props=C18,C06,C09 tier=thorough reach=off timeout=500 bound="FrontendReqHandler: SHMEM_UNMAP flags 0x9" stubs="raw_recvmsg/raw_sendmsg, close, OwnedFd::drop, handle_alloc_error"
+e_fr!(e_fr_shmem_unmap_nr, 10, 0x9, 0);
+// @harness props=C18,C06 tier=thorough reach=off timeout=500 bound="FrontendReqHandler: CONFIG_CHANGE flags 0x9" stubs="raw_recvmsg/raw_sendmsg, close, OwnedFd::drop, handle_alloc_error"
+e_fr!(e_fr_config_change_nr, 2, 0x9, 0);
+// @harness props=C18,C06 tier=quick reach=off timeout=500 bound="FrontendReqHandler: SHMEM_MAP flags 0x1 (no NEED_REPLY): nothing may be written" stubs="raw_recvmsg/raw_sendmsg, close, OwnedFd::drop, handle_alloc_error"
+e_fr!(e_fr_shmem_map_plain, 9, 0x1, 0);
+// @harness props=C06,C09 tier=quick reach=off timeout=500 bound="FrontendReqHandler: SHARED_OBJECT_LOOKUP with the REPLY bit set" stubs="raw_recvmsg/raw_sendmsg, close, OwnedFd::drop, handle_alloc_error"
+e_fr!(e_fr_lookup_replybit, 8, 0xd, 0);
+// @harness props=C06,C09 tier=thorough reach=off timeout=500 bound="FrontendReqHandler: SHMEM_MAP one byte short" stubs="raw_recvmsg/raw_sendmsg, close, OwnedFd::drop, handle_alloc_error"
+e_fr!(e_fr_map_short, 9, 0x9, -1);
+// @harness props=C06,C09 tier=thorough reach=off timeout=500 bound="FrontendReqHandler: SHARED_OBJECT_ADD one byte long" stubs="raw_recvmsg/raw_sendmsg, close, OwnedFd::drop, handle_alloc_error"
+e_fr!(e_fr_add_long, 6, 0x9, 1);
+// @harness props=C06,C09 tier=quick reach=off timeout=500 bound="FrontendReqHandler: request code 1 (IOTLB_MSG, not served): error, no handler call" stubs="raw_recvmsg/raw_sendmsg, close, OwnedFd::drop, handle_alloc_error"
+e_fr!(e_fr_unserved_iotlb, 1, 0x9, 0);
+// @harness props=C06,C09 tier=thorough reach=off timeout=500 bound="FrontendReqHandler: request code 4 (VRING_CALL, not served)" stubs="raw_recvmsg/raw_sendmsg, close, OwnedFd::drop, handle_alloc_error"
+e_fr!(e_fr_unserved_vring_call, 4, 0x9, 0);
